@@ -12,6 +12,8 @@ fn values() -> Vec<String> {
     let mut v = enumerate::strings(&["a", "b", " ", "*", "\n", "é"], 3);
     v.push("abcabc".into());
     v.push("a/b/c".into());
+    v.push("abab".into());
+    v.push("abba".into());
     v
 }
 
@@ -27,7 +29,32 @@ pub fn run(tier: Tier, _replay: Option<Value>) -> ! {
         let cs: Vec<char> = p.chars().collect();
         (0..cs.len().saturating_sub(1)).any(|i| "?*+@!".contains(cs[i]) && cs[i + 1] == '(' && !cs[i + 2..].contains(&')'))
     };
-    let patterns: Vec<String> = enumerate::strings(SP, plen).into_iter().filter(|p| !unterminated(p)).collect();
+    let mut patterns: Vec<String> = enumerate::strings(SP, plen).into_iter().filter(|p| !unterminated(p)).collect();
+    // extglob groups with two alternatives (one may be a prefix/suffix of the other or itself a
+    // glob), alone and followed/preceded by another piece: longest/shortest must range over ALL ways of
+    // matching, not over the first alternative that fits (only meaningful with extglob on; with it off the
+    // same texts are ordinary characters on both sides)
+    let alts = ["a", "ab", "b", "ba", "a*", "?"];
+    let mut groups: Vec<String> = vec![];
+    for x in ["@", "?", "*", "+", "!"] {
+        for (i, a) in alts.iter().enumerate() {
+            for (j, b) in alts.iter().enumerate() {
+                if i != j {
+                    groups.push(format!("{x}({a}|{b})"));
+                }
+            }
+        }
+    }
+    for g in &groups {
+        patterns.push(g.clone());
+        if tier == Tier::Thorough || g.starts_with('@') || g.starts_with('*') {
+            for piece in ["b", "*", "?"] {
+                patterns.push(format!("{g}{piece}"));
+                patterns.push(format!("{piece}{g}"));
+            }
+        }
+    }
+    rep.set("extglob_alternation_patterns", groups.len() as u64);
     let loop_body = format!("for p in \"${{P[@]}}\"; do for v in \"${{V[@]}}\"; do vargs {}; done; done\n", PAT_OPS.iter().map(|o| format!("\"{o}\"")).collect::<Vec<_>>().join(" "));
     let chunks: Vec<&[String]> = patterns.chunks(8).collect();
     for extglob in [false, true] {
@@ -82,6 +109,9 @@ pub fn run(tier: Tier, _replay: Option<Value>) -> ! {
                             if p.contains('(') {
                                 tags.push("pat:paren".into());
                             }
+                            if p.contains("!(") && p.contains('|') {
+                                tags.push("pat:negated-alternation".into());
+                            }
                             if v.contains('\n') {
                                 tags.push("val:newline".into());
                             }
@@ -104,7 +134,11 @@ pub fn run(tier: Tier, _replay: Option<Value>) -> ! {
                         // a pattern ending in an escaped `\*` never matches in ${v/p/r} (bash takes the last
                         // character for an unescaped star when it anchors the pattern), and an extglob group
                         // with no alternative at all, `?()`, matches "" for removal but not for replacement.
-                        let bash_quirk = oi >= 4 && (p.ends_with("\\*") || p.contains("()"));
+                        // Likewise, on an EMPTY value bash replaces with `*` and with `/%?(b)` but not with
+                        // `/?(b)`, `/#?(b)`, `//?(b)`, and `/%!(a|b)` never takes the empty suffix although
+                        // `/#!(a|b)` takes the empty prefix.
+                        let has_group = ["@(", "?(", "*(", "+(", "!("].iter().any(|g| p.contains(g));
+                        let bash_quirk = oi >= 4 && (p.ends_with("\\*") || p.contains("()") || (extglob && has_group && v.is_empty()) || (extglob && oi == 7 && p.contains("!(")));
                         if bash_quirk {
                             rep.add("substitution_rows_skipped_bash_inconsistent_with_itself", 1);
                         } else if g != want[oi] {
@@ -221,23 +255,39 @@ pub fn run(tier: Tier, _replay: Option<Value>) -> ! {
         s.push(("declared-unset".into(), "unset v; declare v".into()));
         s
     };
+    // the same operators reached through another access path: indirection, an array element, a positional
+    // parameter (the state of `v` is mirrored into the element / the positional parameter first)
+    const PATHS: &[(&str, &str, &str)] = &[
+        ("direct", "${v", ""),
+        ("indirect", "${!r", ""),
+        ("element", "${a[1]", "unset a; [[ ${v+x} ]] && a[1]=$v; "),
+        ("positional", "${1", "if [[ ${v+x} ]]; then set -- \"$v\"; else set --; fi; "),
+    ];
     let mk_script = |form: &str, nounset: bool| -> String {
         // pathname expansion is not the subject here (and the two shells' directories differ by s.sh)
         let mut s = String::from("set -f; y='y z'; n=2; r=v\n");
-        if nounset {
-            s.push_str("set -u\n");
-        }
+        let mirror = PATHS.iter().find(|p| p.0 != "direct" && p.0 != "indirect" && form.starts_with(p.1)).map(|p| p.2).unwrap_or("");
         for (k, (_, setup)) in states.iter().enumerate() {
-            s.push_str(&format!("echo \"#{k}\"\n( {setup}; vargs {form} \"{form}\"; echo \"v=<${{v-UNSET}}>\" ); echo \"s=$?\"\n"));
+            // (nounset is switched on after the state has been mirrored)
+            let nu = if nounset { "set -u; " } else { "" };
+            s.push_str(&format!("echo \"#{k}\"\n( {setup}; {mirror}{nu}vargs {form} \"{form}\"; set +u; echo \"v=<${{v-UNSET}}> a1=<${{a[1]-UNSET}}> n=$#\" ); echo \"s=$?\"\n"));
         }
         s.push_str("echo \"#E\"\n");
         s
     };
     let mut fcases: Vec<(String, &str, bool)> = vec![];
     for (f, kind) in &forms {
-        fcases.push((f.clone(), kind, false));
-        if *kind != "substring" || tier == Tier::Thorough {
-            fcases.push((f.clone(), kind, true));
+        for (pn, repl, _) in PATHS {
+            // `${!r}`-style forms of the misc list are already indirect; `${#r}` stays as it is
+            if *pn != "direct" && (!f.starts_with("${v") || (*kind == "substring" && tier == Tier::Quick)) {
+                continue;
+            }
+            let f2 = if *pn == "direct" { f.clone() } else { f.replacen("${v", repl, 1) };
+            let kind2: &str = if *pn == "direct" { kind } else { Box::leak(format!("{kind}/{pn}").into_boxed_str()) };
+            fcases.push((f2.clone(), kind2, false));
+            if !kind.starts_with("substring") || tier == Tier::Thorough {
+                fcases.push((f2, kind2, true));
+            }
         }
     }
     // arrays, positional lists, associative arrays
@@ -301,9 +351,22 @@ pub fn run(tier: Tier, _replay: Option<Value>) -> ! {
             rep.nontrivial.insert(format!("{label}|{sub}|{nounset}"));
             // stderr text is not compared; "fails where bash fails" = same status, no output where bash has none
             if g != want[k] {
-                let mut tags = vec![format!("kind:{kind}")];
+                let mut tags = vec![format!("kind:{}", kind.split('/').next().unwrap_or(""))];
                 if i < fcases.len() {
-                    tags.push(format!("form:{label}"));
+                    // the form tag names the operator as written on `v`; the access path is a tag of its own
+                    let direct_form = if label.starts_with("${!r") && kind.contains('/') {
+                        label.replacen("${!r", "${v", 1)
+                    } else if label.starts_with("${a[1]") {
+                        label.replacen("${a[1]", "${v", 1)
+                    } else if label.starts_with("${1") && kind.contains('/') {
+                        label.replacen("${1", "${v", 1)
+                    } else {
+                        label.clone()
+                    };
+                    tags.push(format!("form:{direct_form}"));
+                    if let Some((_, path)) = kind.split_once('/') {
+                        tags.push(format!("path:{path}"));
+                    }
                     tags.push(format!("state:{}", states[k].0.split(':').next().unwrap_or("")));
                 } else {
                     tags.push(format!("target:{}", ascripts[i - fcases.len()].0));
